@@ -226,6 +226,21 @@ func newEntryBase() *otto.Otto {
 		_, _ = call.Otto.Eval(`typeof __f`)
 		return v
 	})
+	_ = vm.Set("__hostAPI", func(call otto.FunctionCall) otto.Value {
+		k, _ := call.Argument(0).ToInteger()
+		api := reentryAPIs[int(k)%len(reentryAPIs)]
+		res := ox.Guard(func() (otto.Value, error) { return api.Do(call.Otto) })
+		text := "ok"
+		switch {
+		case res.Panicked:
+			reentryPanic = res
+			text = "PANIC"
+		case res.Err != nil:
+			text = "err:" + ox.ErrClass(res.Err)
+		}
+		v, _ := otto.ToValue(text)
+		return v
+	})
 	_ = vm.Set("__hostThrow", func(call otto.FunctionCall) otto.Value {
 		panic(call.Otto.MakeTypeError("from host"))
 	})
@@ -292,6 +307,117 @@ func runEntry(r *rc) {
 	}
 	r.Bound("routes", fmt.Sprint(len(entryRoutes)))
 	r.Bound("bodies", fmt.Sprint(len(entryBodies)))
+
+	// host re-entry at the stack depth limit: a script recurses to depth d
+	// (0..L+1) and there calls a host function that uses one public API; the API
+	// must hand the host a value or an error (RangeError), not a Go panic.
+	const L = 6
+	for ai, api := range reentryAPIs {
+		for d := 0; d <= L+1; d++ {
+			key := fmt.Sprintf("reentry|%s|d%d", api.Name, d)
+			if !r.MineKey(key) {
+				continue
+			}
+			src := fmt.Sprintf(`function __f(a){ return a } var __o = {get g(){ return 1 }, set g(v){}, m: function(){ return 2 }, toString: function(){ return "s" }, toJSON: function(){ return 3 }};
+function rec(n){ return n > 0 ? rec(n - 1) : __hostAPI(%d) } var __r; try { __r = rec(%d) } catch (e) { __r = "js:" + e.name } __r`, ai, d)
+			r.Describe(fmt.Sprintf("SetStackDepthLimit(%d); script at depth %d calls a host function that calls %s", L, d, api.Name))
+			r.Begin(key)
+			vm := base.Copy()
+			vm.SetStackDepthLimit(L)
+			reentryPanic = ox.Result{}
+			res := ox.Run(vm, src)
+			inner := reentryPanic
+			post := ox.Run(vm, "1+1")
+			r.End()
+			out := outcome(res)
+			r.Eval(!res.Panicked && res.Err == nil)
+			r.Outcome("reentry:" + api.Name + "=>" + out)
+			for _, pr := range []struct {
+				phase string
+				res   ox.Result
+			}{{"call", res}, {"reentrant-api", inner}, {"runtime-after", post}} {
+				if !pr.res.Panicked {
+					continue
+				}
+				site, via := panicSite(pr.res.Stack)
+				devDump(key, src, pr.phase, panicClass(pr.res.PanicVal), panicText(pr.res.PanicVal), site, via)
+				r.Mismatch(engine.Mismatch{Key: key, Input: fmt.Sprintf("limit %d, depth %d, host function calls %s", L, d, api.Name),
+					Expected: "the API call returns a value or an error to the host function",
+					Observed: "Go panic escaped (" + pr.phase + "): " + panicText(pr.res.PanicVal) + " @ " + site,
+					Note:     trimStack(pr.res.Stack),
+					Aux: map[string]string{"route": "reentry", "body": api.Name, "depth": fmt.Sprint(d), "phase": pr.phase, "class": panicClass(pr.res.PanicVal),
+						"panic": panicText(pr.res.PanicVal), "site": site, "via": via}})
+			}
+		}
+	}
+	r.Bound("reentry_apis", fmt.Sprint(len(reentryAPIs)))
+}
+
+// reentryPanic records a Go panic that a public API raised inside the host
+// function __hostAPI (the host function recovers it so that the run goes on).
+var reentryPanic ox.Result
+
+// reentryAPIs: what the host function does with the runtime it was called from.
+var reentryAPIs = []struct {
+	Name string
+	Do   func(vm *otto.Otto) (otto.Value, error)
+}{
+	{"Otto.Call", func(vm *otto.Otto) (otto.Value, error) { return vm.Call("Math.abs", nil, -1) }},
+	{"Otto.Call-script", func(vm *otto.Otto) (otto.Value, error) { return vm.Call("__f", nil, 1) }},
+	{"Otto.Call-this", func(vm *otto.Otto) (otto.Value, error) { return vm.Call("__f", map[string]int{"a": 1}, 1) }},
+	{"Otto.Call-new", func(vm *otto.Otto) (otto.Value, error) { return vm.Call("new __f", nil, 1) }},
+	{"Otto.Run", func(vm *otto.Otto) (otto.Value, error) { return vm.Run(`__f(1)`) }},
+	{"Otto.Eval", func(vm *otto.Otto) (otto.Value, error) { return vm.Eval(`__f(1)`) }},
+	{"Otto.Compile-Run", func(vm *otto.Otto) (otto.Value, error) {
+		s, err := vm.Compile("", `__f(1)`)
+		if err != nil {
+			return otto.Value{}, err
+		}
+		return vm.Run(s)
+	}},
+	{"Otto.Object", func(vm *otto.Otto) (otto.Value, error) {
+		o, err := vm.Object(`({a: __f(1)})`)
+		if err != nil {
+			return otto.Value{}, err
+		}
+		return o.Value(), nil
+	}},
+	{"Otto.Get-Set", func(vm *otto.Otto) (otto.Value, error) { _ = vm.Set("zz", 1); return vm.Get("zz") }},
+	{"Otto.ToValue", func(vm *otto.Otto) (otto.Value, error) { return vm.ToValue([]int{1}) }},
+	{"Otto.Context", func(vm *otto.Otto) (otto.Value, error) { c := vm.Context(); return c.This, nil }},
+	{"Otto.Copy", func(vm *otto.Otto) (otto.Value, error) { return vm.Copy().Run(`1`) }},
+	{"Value.Call", func(vm *otto.Otto) (otto.Value, error) { return fval(vm).Call(otto.UndefinedValue(), 1) }},
+	{"Value.Call-native", func(vm *otto.Otto) (otto.Value, error) {
+		m, _ := vm.Get("parseInt")
+		return m.Call(otto.UndefinedValue(), "1")
+	}},
+	{"Object.Call", func(vm *otto.Otto) (otto.Value, error) {
+		v, _ := vm.Get("__o")
+		return v.Object().Call("m")
+	}},
+	{"Object.Get-getter", func(vm *otto.Otto) (otto.Value, error) {
+		v, _ := vm.Get("__o")
+		return v.Object().Get("g")
+	}},
+	{"Object.Set-setter", func(vm *otto.Otto) (otto.Value, error) {
+		v, _ := vm.Get("__o")
+		return otto.Value{}, v.Object().Set("g", 1)
+	}},
+	{"Value.conversions", func(vm *otto.Otto) (otto.Value, error) {
+		v, _ := vm.Get("__o")
+		_ = v.String()
+		_, _ = v.ToString()
+		_, _ = v.ToFloat()
+		_ = v.IsNaN()
+		_, err := v.Export()
+		return otto.Value{}, err
+	}},
+	{"Value.MarshalJSON", func(vm *otto.Otto) (otto.Value, error) {
+		v, _ := vm.Get("__o")
+		_, err := v.MarshalJSON()
+		return otto.Value{}, err
+	}},
+	{"MakeError", func(vm *otto.Otto) (otto.Value, error) { return vm.MakeTypeError("t"), nil }},
 }
 
 // ---------------------------------------------------------------------------
